@@ -321,7 +321,7 @@ fn one_scenario(run: &Run, case: u64) {
 
 pub fn run(tier: Tier, replay: Option<Value>) -> i32 {
     let run = Run::new("C03", "fault_enumeration", tier, replay);
-    let n = tier.pick(12, 160);
+    let n = tier.pick(12, 600);
     run.par_cases(n, super::threads(), |case| one_scenario(&run, case));
     run.finish(
         "scenarios = prior history in {empty archive, one complete version, complete + interrupted, two complete} x generated new source (small files that share combined blocks, a multi-block file, changed/removed/renamed entries) x small (hunk, block, cap); for each, the storage trace of the backup is recorded and EVERY operation index k in 0..=n is replayed on a fresh copy with stop-the-world before k, and every write additionally with the torn variant (file exists, empty). At each state: archive opens; every previously complete version restores exactly by id and via LatestClosed; independent reference scan finds no entry pointing at a missing/short block; if the new header parses, the band is listed, not closed (unless its tail exists), its listing equals the executable stitching rule over the raw files, and its restore equals new content up to the last recorded path and the previous version after (paths without a directory above them in the listing excepted); a follow-up backup completes and restores exactly. Distinct = (scenario, k, torn).",
